@@ -80,6 +80,17 @@ def s1(facts, rep):
             n += len(aggs0)  # the constructions that now stand unprotected count as (failed) obligations
         if not rep.check(len(cmps) >= 1, "S1", short, "root-comparison", "%s no longer compares the recomputed root with the expected root" % vfn, site=body.span, detail="comparison at %s" % [t.get("ln") for (b, t) in cmps]):
             continue
+        # S6: a verifier that is given the queried key hashes along THAT key: the recomputed root must be computed from the
+        # key-path parameter (a proof of A hashed along A's own path would verify for any B)
+        import termination
+
+        kparams = [i for i in range(1, body.argc + 1) if "BitSlice" in body.local_ty(i) or body.local_name(i) == "key_path"]
+        if kparams:
+            for (cb, t) in cmps:
+                n += 1
+                comp = [a for a in t["args"] if any(r.kind == "call" and r.what.split("::")[-1] in producers for r in trace(body, a))]
+                ok = any(termination.derives_from(body, a, lambda r: r.kind == "param" and r.what in kparams) for a in comp)
+                rep.check(ok, "S6", short, "root-from-queried-key", "the root recomputed in %s does not depend on the queried key path: the proof is hashed along a path of its own, so it verifies for every key" % vfn, site=t.get("ln"), detail="the compared root derives from the key_path parameter")
         import guardfx
 
         aggs = [(bb, s) for bb in range(body.n) for s in body.stmts(bb) if s["k"] == "assign" and s["rv"]["k"] == "agg" and s["rv"].get("name") == adt]
